@@ -18,6 +18,7 @@ from .. import (
     NamedType,
     NonNullType,
     ObjectType,
+    ScalarType,
     Schema,
     UnionType,
     is_introspection_type,
@@ -200,6 +201,22 @@ def _find_added_types(old: Schema, new: Schema) -> Iterator[SchemaChange]:
             yield TypeAdded(name)
 
 
+def _type_kind(type_: NamedType) -> Type[NamedType]:
+    # Types can be instances of user defined subclasses (e.g. custom scalars),
+    # the kind of a type is the library class it derives from.
+    for kind in (
+        ScalarType,
+        ObjectType,
+        InterfaceType,
+        UnionType,
+        EnumType,
+        InputObjectType,
+    ):
+        if isinstance(type_, kind):
+            return kind
+    return type_.__class__
+
+
 def _find_changed_types(old: Schema, new: Schema) -> Iterator[SchemaChange]:
     for name, old_type in old.types.items():
         try:
@@ -207,10 +224,9 @@ def _find_changed_types(old: Schema, new: Schema) -> Iterator[SchemaChange]:
         except KeyError:
             pass
         else:
-            if old_type.__class__ != new_type.__class__:
-                yield TypeChangedKind(
-                    name, old_type.__class__, new_type.__class__
-                )
+            old_kind, new_kind = _type_kind(old_type), _type_kind(new_type)
+            if old_kind != new_kind:
+                yield TypeChangedKind(name, old_kind, new_kind)
 
 
 def _diff_union_types(old: Schema, new: Schema) -> Iterator[SchemaChange]:
